@@ -11,10 +11,10 @@ import (
 type Ev map[string]interface{}
 
 type Recorder struct {
-	mu  sync.Mutex
-	w   *bufio.Writer
-	seq int
-	mem []Ev
+	mu   sync.Mutex
+	w    *bufio.Writer
+	seq  int
+	mem  []Ev
 	keep bool
 }
 
